@@ -45,7 +45,8 @@ EVIDENCE = dict(
     level='proof',
     rule='one Coq case = the whole primitive trace of one scenario (8-20 real file_store API operations on one jugdir) '
          'with a checkpoint per operation; non-trivial/distinct = distinct shape (sequence of primitive kinds with '
-         'final/non-final flags) of one API operation\'s trace; crash images and reader points are counted in `distribution`',
+         'final/non-final flags) of one API operation\'s trace; evaluations = Coq cases + distinct crash images and '
+         'reader points on which the oracle ran against a fresh real file_store (details in `distribution`)',
     explanation='Coq theorems over all accepted traces, crash points, crash relations and reader interleavings '
                 '(Model/Fs.v) + trace validation of real file_store runs against write_protocol + exhaustive/sampled '
                 'fault enumeration on the real code with a fresh file_store as observer',
@@ -1267,6 +1268,7 @@ def run(ck):
             ck.count('crash images enumerated: process kill', st['kill'])
             ck.count('crash images enumerated: power loss', st['pl'])
             ck.count('crash images identical to one already checked for the same operation (not re-checked)', st['dedup'])
+            ck.case_total += st['kill'] + st['pl'] - st['dedup'] + rec.reader_points
             ck.count('crash points with exhaustive lossy subsets', st['pl_exhaustive_points'])
             ck.count('crash points with sampled lossy subsets', st['pl_sampled_points'])
             shutil.rmtree(root, ignore_errors=True)
